@@ -139,3 +139,57 @@ func VT_C08_TwoPredicates() {
 	cancel()
 	vt.Reach("done")
 }
+
+// The predicate is evaluated on the stored item, not on what the read mask leaves of it: List and a folded Pull with
+// WithInclude + a read mask that hides the field the predicate reads agree with the filtered, projected collection.
+func VT_C08_IncludeWithReadMask() {
+	v0 := vt.Int32("v0")
+	c := NewCollection(WithInitialRecord("a", &T8{DefaultInt32: v0, DefaultInt64: 10}))
+	bp := vt.Choose("backpressure", 2) == 1
+	ctx, cancel := context.WithCancel(context.Background())
+	ropts := []ReadOption{WithInclude(vtMatches), WithReadPaths(&T8{}, "default_int64")}
+	ch := c.Pull(ctx, append(ropts, WithBackpressure(bp))...)
+	view := map[string]int64{}
+	seen := make(chan struct{})
+	go func() {
+		for e := range ch {
+			if e.Id == "z" {
+				close(seen)
+				continue
+			}
+			switch e.ChangeType {
+			case types.ChangeType_REMOVE:
+				delete(view, e.Id)
+			default:
+				vt.Assert(e.NewValue.(*T8).DefaultInt32 == 0, "delivered-values-are-projected")
+				view[e.Id] = e.NewValue.(*T8).DefaultInt64
+			}
+		}
+	}()
+	v1 := vt.Int32("v1")
+	c.Update("a", &T8{DefaultInt32: v1, DefaultInt64: 11})
+	vb := vt.Int32("b")
+	c.Add("b", &T8{DefaultInt32: vb, DefaultInt64: 20})
+	list := c.List(ropts...)
+	want := map[string]int64{}
+	if v1 > 0 {
+		want["a"] = 11
+	}
+	if vb > 0 {
+		want["b"] = 20
+	}
+	vt.Assert(len(list) == len(want), "list-has-exactly-the-items-whose-stored-value-matches")
+	for _, m := range list {
+		x := m.(*T8)
+		vt.Assert(vt.And(x.DefaultInt32 == 0, x.DefaultInt64 == 11 || x.DefaultInt64 == 20), "listed-items-are-projected")
+	}
+	c.Add("z", &T8{DefaultInt32: 1}) // sentinel, always matching
+	<-seen
+	vt.Assert(len(view) == len(want), "folded-masked-filtered-stream-has-the-items-of-the-filtered-collection")
+	for id, x := range want {
+		got, ok := view[id]
+		vt.Assert(vt.And(ok, got == x), "folded-masked-filtered-stream-has-their-projected-values")
+	}
+	cancel()
+	vt.Reach("done")
+}
